@@ -151,6 +151,14 @@ func boundedProgram(fam string, n int64) string {
 		return "a=[1]\nfor " + intLit(n) + " {a=[a,a]}\nb=(a==a)\nb"
 	case "dag-print":
 		return "a=[1]\nfor " + intLit(n) + " {a=[a,a]}\nprintln(a)\n1"
+	// --- a value nested n levels deep, built at run time by a loop of n small steps (families added by the C07 gap
+	// analysis): traversals of the value recurse n deep on the Go stack
+	case "deepval-eq":
+		return "a=[]\nfor " + intLit(n) + " {a=[a]}\nb=(a==a)\nb"
+	case "deepval-print":
+		return "a=[]\nfor " + intLit(n) + " {a=[a]}\nprintln(a)\n1"
+	case "deepval-key":
+		return "a={}\nfor " + intLit(n) + " {a={1:a}}\nm={a:1}\nlen(m)"
 	// --- deeply nested source text
 	case "nest-paren":
 		return rep("(") + "1" + rep(")")
@@ -464,6 +472,10 @@ func boundedGen(tier string, r *rng, emit func(string)) {
 				add(f, 30000+int64(r.intn(100000)), pickD(), pickT())
 			}
 		}
+		// values nested deep at run time, shallow enough for the Go stack (10^6 levels are the recorded C07 finding)
+		add("deepval-eq", int64(1000+r.intn(50000)), pickD(), 1000)
+		add("deepval-print", int64(100+r.intn(3000)), pickD(), 1000)
+		add("deepval-key", int64(100+r.intn(20000)), pickD(), 1000)
 		// shared structure, small enough to be traversed in time (larger ones are the recorded finding)
 		add("dag-eq", int64(8+r.intn(8)), pickD(), 1000)
 		add("dag-print", int64(8+r.intn(8)), pickD(), 1000)
